@@ -94,6 +94,47 @@ UNITS += [
          ),
 ]
 
+R_MAPERR = Rw("", "", count=None, kind="maperr", why=".map_err(<error building closure>) -> .vmap_err()")
+WK = dict(wrap_open="impl KeyFileK {", wrap_close="}")
+UNITS += [
+    Unit(name="kf_kdf_key", file=KF, anchor="pub fn kdf_key(&self, passwd: &impl AsRef<[u8]>) -> RusticResult<Key>", within="impl KeyFile {", ret_name="r", **WK,
+         functions=["repofile::keyfile::KeyFile::kdf_key"],
+         rewrites=[R_MAPERR,
+                   Rw("passwd: &impl AsRef<[u8]>", "passwd: &PasswdB", sig=True, why="password bytes -> ghost byte sequence"),
+                   Rw("Params::new(", "ParamsR::new(", why="scrypt::Params -> stub"),
+                   Rw("let mut key = [0; 64];", "let mut key = [0u8; 64];", why="literal type made explicit"),
+                   Rw("scrypt::scrypt(", "vscrypt(", why="scrypt -> uninterpreted SCRYPT(password, salt, params)"),
+                   Rw("Key::from_slice(&key)", "vkey_from_array(&key)", why="Key::from_slice -> uninterpreted KEY_OF"),
+         ],
+         contract="""
+    ensures
+        // the wrapping key is derived from EXACTLY the password bytes given, the key file's salt and its scrypt parameters
+        /*@wrapping_key_from_exactly_the_password_bytes*/ r matches Ok(k) ==> k.0 == wrapping_key(*self, passwd.bytes@),
+"""),
+    Unit(name="kf_key_from_data", file=KF, anchor="pub fn key_from_data(&self, key: &Key) -> RusticResult<Key>", within="impl KeyFile {", ret_name="r", **WK,
+         functions=["repofile::keyfile::KeyFile::key_from_data"],
+         rewrites=[Rw(r"serde_json::from_slice::<MasterKey>\(&dec_data\)\s*\.map_err\(.*?\)\?\s*\.key\(\);", "vmasterkey_from_json(&dec_data)?;", regex=True, why="serde_json parse of the master key + error mapping -> uninterpreted MK_PARSE")],
+         contract="""
+    ensures
+        // a master key comes out only if the wrapping key authenticates the key file's data (MAC over the wrapped key)
+        /*@master_key_only_if_mac_verifies*/ r matches Ok(k) ==> self.data@.len() >= 16
+            && AEAD_OK(key.0, self.data@.subrange(0, 16), self.data@.subrange(16, self.data@.len() as int))
+            && k.0 == MK_PARSE(PT(key.0, self.data@.subrange(0, 16), self.data@.subrange(16, self.data@.len() as int))),
+"""),
+    Unit(name="kf_key_from_password", file=KF, anchor="pub fn key_from_password(&self, passwd: &impl AsRef<[u8]>) -> RusticResult<Key>", within="impl KeyFile {", ret_name="r", **WK,
+         functions=["repofile::keyfile::KeyFile::key_from_password"],
+         rewrites=[Rw("passwd: &impl AsRef<[u8]>", "passwd: &PasswdB", sig=True, why="password bytes -> ghost byte sequence")],
+         contract="""
+    ensures
+        // only a password whose derived key authenticates the key file opens it, and what comes back is the key wrapped in it
+        /*@password_opens_only_if_its_key_authenticates*/ r matches Ok(k) ==> self.data@.len() >= 16 && ({
+            let w = wrapping_key(*self, passwd.bytes@);
+            AEAD_OK(w, self.data@.subrange(0, 16), self.data@.subrange(16, self.data@.len() as int))
+            && k.0 == MK_PARSE(PT(w, self.data@.subrange(0, 16), self.data@.subrange(16, self.data@.len() as int)))
+        }),
+"""),
+]
+
 M = "backend::decrypt::verif_kani::"
 KANI = [
     Harness(M + "c04_hash_write_full_stores_ciphertext_under_its_hash", functions=["<backend::decrypt::DecryptBackend as DecryptWriteBackend>::hash_write_full", "backend::decrypt::DecryptBackend::{encrypt_file, very_file, decrypt_file}"], expect_stubs=2, timeout=900),
